@@ -358,6 +358,14 @@ def run(ctx):
             tie["code_functions"] = tie.get("code_functions", 0) + len(mine)
             if mine == theirs:
                 tie["code_equal"] = tie.get("code_equal", 0) + 1
+            elif W.encode_code_functions(r["mod"], elide_empty_else=True) == theirs:
+                # `if … else end`: the assembler drops the opcode of an EMPTY else branch (same meaning, one byte shorter)
+                tie["code_equal_modulo_empty_else"] = tie.get("code_equal_modulo_empty_else", 0) + 1
+            elif any(k == "types:explicit-duplicates-merged" for k in r["viol"]) and theirs in (
+                    W.encode_code_functions(r["mod"], merge_explicit_types=True),
+                    W.encode_code_functions(r["mod"], elide_empty_else=True, merge_explicit_types=True)):
+                # type indices inside the code follow the (listed) merged numbering of the type section; nothing else differs
+                tie["code_equal_under_merged_types"] = tie.get("code_equal_under_merged_types", 0) + 1
             else:
                 j = next((x for x in range(min(len(mine), len(theirs))) if mine[x] != theirs[x]), min(len(mine), len(theirs)))
                 a = mine[j].hex() if j < len(mine) else "<absent>"
